@@ -11,12 +11,81 @@ pub const CLAIMED: &[&str] =
 
 /// Generation by run index: a few run indices are reserved for scenarios that must be present
 /// in every batch (C08: hook-free real-scale runs).
+/// Byte-wise I/O schedules cost one simulated call per byte: a case holding a multi-megabyte key or
+/// value (the 2^21 framing boundary) runs under whole-buffer transfers (buffering is kept).
+fn tame_huge(mut case: Case) -> Case {
+    use crate::case::*;
+    fn huge(e: &Entries) -> bool {
+        match e {
+            Entries::Literal(v) => v.iter().any(|(k, v)| k.0.len() >= (1 << 20) || v.0.len() >= (1 << 20)),
+            Entries::Counter { .. } => false,
+        }
+    }
+    let h = match &case {
+        Case::File(c) => huge(&c.spec.entries),
+        Case::Cursor(c) => huge(&c.spec.entries),
+        Case::Iter(c) => huge(&c.spec.entries),
+        Case::Merge(c) => c.sources.iter().any(|s| huge(&s.entries)),
+        Case::Sort(c) => huge(&c.inserts),
+        Case::Open(_) => false,
+    };
+    if h {
+        let fix = |e: &mut crate::env::EnvPlan| e.modes = vec![crate::env::IoMode::Whole];
+        match &mut case {
+            Case::File(c) => fix(&mut c.env),
+            Case::Cursor(c) => fix(&mut c.env),
+            Case::Iter(c) => fix(&mut c.env),
+            Case::Merge(c) => fix(&mut c.env),
+            Case::Sort(c) => fix(&mut c.env),
+            Case::Open(_) => {}
+        }
+    }
+    case
+}
+
 pub fn gen_case_indexed(prop: &str, rng: &mut Rng, tier: Tier, run: u64) -> Case {
+    tame_huge(gen_case_indexed_raw(prop, rng, tier, run))
+}
+
+fn gen_case_indexed_raw(prop: &str, rng: &mut Rng, tier: Tier, run: u64) -> Case {
     if prop == "C08" {
         let reserved = if tier == Tier::Quick { 1 } else { 6 };
         if run < reserved {
             return crate::props_sort::gen_c08_with(rng, tier, true);
         }
+    }
+    if prop == "C07" && run < if tier == Tier::Quick { 2 } else { 6 } {
+        // hook-free sorter at the shipped thresholds: 10 MiB minimum budget, 128 KiB initial buffer,
+        // ~16 MB of inserts over 65536 distinct keys (so chunks overlap and values are merged)
+        use crate::case::*;
+        // even run indices: tiny entries, so one in-memory run holds several hundred thousand of them
+        let (n, vlen) = if run % 2 == 0 { (rng.range(450_000, 600_000), *rng.pick(&[4u32, 8])) } else { (rng.range(140_000, 170_000), 100) };
+        let par = if run % 2 == 0 { true } else { rng.chance(1, 2) };
+        return Case::Sort(SortCase {
+            // even runs: only 256 distinct keys, i.e. thousands of equal keys per in-memory run
+            inserts: Entries::Counter { n, width: if run % 2 == 0 { 1 } else { 2 }, start: rng.range(0, 1000), stride: *rng.pick(&[1u64, 7, 257]), vlen },
+            knobs: SortKnobs {
+                raw_threshold: None,
+                threshold_req: Some(*rng.pick(&[0usize, 1024, 10 * 1024 * 1024])),
+                init_cap: None,
+                allow_realloc: rng.chance(1, 2),
+                max_nb_chunks: *rng.pick(&[None, Some(2)]),
+                unstable: false,
+                parallel: par,
+                chunk_codec: *rng.pick(&[None, Some(5)]),
+                chunk_level: None,
+                block_size: None,
+                interval: None,
+                levels: *rng.pick(&[None, Some(2)]),
+                creator: *rng.pick(&[0u8, 1]),
+            },
+            alt_knobs: vec![],
+            // even runs: concatenation, which exposes the order of every value of every run
+            mf: if run % 2 == 0 { crate::env::MergeKind::Concat } else { *rng.pick(&[crate::env::MergeKind::First, crate::env::MergeKind::Last]) },
+            consume: rng.below(3) as u8,
+            out_knobs: Knobs::default_knobs(),
+            env: crate::env::EnvPlan::whole(),
+        });
     }
     gen_case(prop, rng, tier)
 }
